@@ -13,7 +13,7 @@ RULE = ("base histories = generated definitions (downstream joins, retries, with
         "action still reports (any outcome), then the output is rendered; asserted at every later step: no offer, "
         "status canceling while an action is in flight and canceled as soon as none is, final status canceled after "
         "rendering, rendering does not raise and every output variable shows its initial value or a value published "
-        "for it; additionally the decision-shape family (exhaustive in the thorough tier, a rotating slice in the quick tier): every acyclic edge set over 4 tasks with a join x condition succeeded/failed per edge x outcome per task (4128 definitions); tasks that wait at the provider (pending / paused) when the cancel request comes, their answers arriving after the workflow was canceled; non-trivial = cancel accepted with >= 1 action in flight; distinct = (definition, history, position, "
+        "for it; additionally the decision-shape family (exhaustive in the thorough tier, a rotating slice in the quick tier): every acyclic edge set over 4 tasks with a join x condition succeeded/failed per edge x outcome per task (4128 definitions); tasks that wait at the provider (pending / paused) when the cancel request comes, their answers arriving after the workflow was canceled; further pause / resume requests after the cancel; non-trivial = cancel accepted with >= 1 action in flight; distinct = (definition, history, position, "
         "form) digest")
 ASSUMPTIONS = ASSUME_SIM + ["which published value an output variable shows after a cancel is left open by the property; only membership is checked"]
 
@@ -144,7 +144,7 @@ def cancel_sweep(job):
         C["base_histories"] = C.get("base_histories", 0) + 1
         k = 0
         for pos in range(1, len(base) + 1):
-            for form in range(6):
+            for form in range(8):
                 k += 1
                 if only and k != only[1]:
                     continue
@@ -163,6 +163,13 @@ def cancel_sweep(job):
                     run.request("resuming")  # cancel from resuming (or from whatever the resume led to)
                 run.request(["canceling", "canceled"][form % 2])
                 C["insertion_points"] = C.get("insertion_points", 0) + 1
+                if form in (6, 7):
+                    # another request after the cancel (at once, or after one more report): whatever the answer, the
+                    # workflow stays canceling / canceled and nothing is offered
+                    if form == 7 and run.inflight:
+                        run.complete(pol.pick(run))
+                    run.request(["pausing", "paused", "resuming", "running"][h64(seed, pos, form) % 4])
+                    C["requests_after_cancel"] = C.get("requests_after_cancel", 0) + 1
                 explore.run_free(run, pol, start=False)
                 run.finish()
                 out["evaluations"] += 1
